@@ -109,6 +109,8 @@ class C12(Prop):
             st.tuples(st.just('unregister'), st.integers(0, 5)),
             st.tuples(st.just('run'), st.integers(0, 1)), st.tuples(st.just('run'), st.integers(0, 1)),
             st.tuples(st.just('run_nested'), st.integers(0, 1), tps),
+            st.tuples(st.just('run_preempted'), st.integers(0, 1), st.one_of(st.none(), tps)),
+            st.tuples(st.just('run_preempted'), st.integers(0, 1), st.one_of(st.none(), tps)),
             st.tuples(st.just('settle'), st.lists(st.integers(0, 1), max_size=6)))
         plain = st.lists(op, min_size=1, max_size=30 if tier == 'thorough' else 16)
         # class forcing: two updates whose apply tasks are run second-first
@@ -136,6 +138,17 @@ class C12(Prop):
         out = Outcome()
         pool = lab.ManualPool()
         w = World(pool)
+        from deep.config.tracepoint_config import ConfigUpdateListener
+
+        class Pause(ConfigUpdateListener):
+            action = None
+
+            def config_change(self, ts, old_hash, current_hash, old_config, new_config):
+                act, self.action = self.action, None
+                if act is not None:
+                    act()
+        pause = Pause()
+        w.cfg.tracepoints._listeners.insert(0, pause)
         latest, latest_hash = [], None
         known_hashes = {None, ''}
         custom = {}              # handle index -> (marker, handle)
@@ -226,6 +239,53 @@ class C12(Prop):
                 run(op[1])
                 w.handler.new_config = orig_new_config
                 kind = 'noop'
+            if kind == 'run_preempted':
+                # two workers: an apply task is suspended after it has started (at its first call-out, a listener that
+                # is registered ahead of the handler's) while the other worker runs another apply task to completion
+                pend = pending()
+                if pend and (len(pend) >= 2 or op[2] is not None):
+                    out.cls('apply_task_preempted_by_another')
+                    first = pend[op[1] % min(2, len(pend))]
+                    others = [t for t in pend[:2] if t is not first]
+                    if pend.index(first) == 1:
+                        out.cls('out_of_order_apply')
+
+                    second = []
+
+                    def other_worker(task):
+                        # the other worker is a thread of its own: if the agent makes it wait for the suspended task,
+                        # it waits (and the suspended task goes on) - the 20 ms only decide how long we watch it, the
+                        # verdict is taken at quiescence
+                        t_ = threading.Thread(target=lambda: pool.run(pool.pending().index(task)), name='c12-worker-2')
+                        second.append(t_)
+                        t_.start()
+                        t_.join(0.02)
+                        if t_.is_alive():
+                            out.cls('second_worker_waits_for_the_first')
+
+                    def preempt(_others=others, _op=op):
+                        if _op[2] is not None:
+                            # while the task is suspended the next poll response arrives, and its apply task is taken
+                            # by the other worker
+                            before = [t[0] for t in pool.pending()]
+                            do_update('update', [None, _op[2]])
+                            fresh = [t for t in pool.pending() if t[0] not in before]
+                            if fresh:
+                                other_worker(fresh[0])
+                        elif _others:
+                            still = [t for t in pool.pending() if t[0] is _others[0][0]]
+                            if still:
+                                other_worker(still[0])
+                    pause.action = preempt
+                    pool.run(pool.pending().index(first))
+                    pause.action = None
+                    for t_ in second:
+                        t_.join(10)
+                        if t_.is_alive():
+                            raise HarnessError('second worker never finished')
+                    kind = 'noop'
+                else:
+                    kind = 'run'
             if kind in ('update', 'partly_bad'):
                 do_update(kind, op)
             if False:
@@ -285,7 +345,8 @@ class C12(Prop):
                     out.violate('at quiescence: reported hash is not the hash of the installed configuration',
                                 {'hash': w.cfg.tracepoints.current_hash, 'model': latest_hash})
                     break
-        out.nontrivial = 'out_of_order_apply' in out.classes and n_upd >= 2 or 'error_between_updates' in out.classes
+        out.nontrivial = ('out_of_order_apply' in out.classes or 'apply_task_preempted_by_another' in out.classes) \
+            and n_upd >= 2 or 'error_between_updates' in out.classes
         return out
 
     def case_timer(self, recipe):
